@@ -13,9 +13,34 @@ Val = _Val.create()
 StringSort = z3.StringSort()
 IntSort = z3.IntSort()
 BoolSort = z3.BoolSort()
-SeqString = z3.SeqSort(StringSort)
-SeqVal = z3.SeqSort(Val)
-SeqInt = z3.SeqSort(IntSort)
+# Python lists of symbolic length are terms of an *uninterpreted* list sort
+# with length / element functions (EUF + strings is far easier for the
+# solvers than sequences of strings).  Every list operation introduces a
+# fresh list constant related to the old one by (schematic) axioms.
+SeqString = z3.DeclareSort('StrList')
+SeqVal = z3.DeclareSort('ValList')
+SeqInt = z3.DeclareSort('IntList')
+_LEN = {s.name(): z3.Function('Len_' + s.name(), s, IntSort)
+        for s in (SeqString, SeqVal, SeqInt)}
+_AT = {SeqString.name(): z3.Function('At_StrList', SeqString, IntSort,
+                                     StringSort),
+       SeqVal.name(): z3.Function('At_ValList', SeqVal, IntSort, Val),
+       SeqInt.name(): z3.Function('At_IntList', SeqInt, IntSort, IntSort)}
+
+
+def L_len(e):
+    return _LEN[e.sort().name()](e)
+
+
+def L_at(e, i):
+    if isinstance(i, int):
+        i = z3.IntVal(i)
+    return _AT[e.sort().name()](e, i)
+
+
+def list_sort(kind):
+    return {'bytes': SeqString, 'str': SeqString, 'box': SeqVal,
+            'int': SeqInt}[kind]
 
 
 class Unsupported(Exception):
@@ -122,6 +147,14 @@ class VConc(V):
 
     def __repr__(self):
         return 'VConc(%r)' % (self.py,)
+
+
+class VSymSet(V):
+    """Set of str with symbolic membership (Array String -> Bool)."""
+    tname = 'set'
+
+    def __init__(self, member):
+        self.member = member
 
 
 class VFunc(V):
